@@ -35,6 +35,14 @@ impl MatchGeneratorDriver {
     }
 }
 
+#[cfg(feature = "verif_hooks")]
+impl MatchGeneratorDriver {
+    /// Verification hook: public constructor
+    pub fn verif_new(slice_size: usize, max_slices_in_window: usize) -> Self {
+        Self::new(slice_size, max_slices_in_window)
+    }
+}
+
 impl Matcher for MatchGeneratorDriver {
     fn reset(&mut self, _level: CompressionLevel) {
         let vec_pool = &mut self.vec_pool;
@@ -54,6 +62,10 @@ impl Matcher for MatchGeneratorDriver {
     }
 
     fn get_next_space(&mut self) -> Vec<u8> {
+        #[cfg(feature = "verif_hooks")]
+        if !self.vec_pool.is_empty() {
+            vhit!(mg_pool_reuse);
+        }
         self.vec_pool.pop().unwrap_or_else(|| {
             let mut space = alloc::vec![0; self.slice_size];
             space.resize(space.capacity(), 0);
@@ -256,6 +268,12 @@ impl MatchGenerator {
                     let match_len = Self::common_prefix_len(match_slice, data_slice);
 
                     // Collisions in the suffix store might make this check fail
+                    #[cfg(feature = "verif_hooks")]
+                    if match_len < MIN_MATCH_LEN {
+                        vhit!(mg_collision_rejected);
+                    } else if !is_last {
+                        vhit!(mg_match_older_entry);
+                    }
                     if match_len >= MIN_MATCH_LEN {
                         let offset = match_entry.base_offset + self.suffix_idx - match_index;
 
@@ -283,6 +301,7 @@ impl MatchGenerator {
             }
 
             if let Some((offset, match_len)) = candidate {
+                vhit!(mg_match);
                 // For each index in the match we found we do not need to look for another match
                 // But we still want them registered in the suffix store
                 self.add_suffixes_till(self.suffix_idx + match_len);
@@ -390,6 +409,7 @@ impl MatchGenerator {
     fn reserve(&mut self, amount: usize, mut reuse_space: impl FnMut(Vec<u8>, SuffixStore)) {
         assert!(self.max_window_size >= amount);
         while self.window_size + amount > self.max_window_size {
+            vhit!(mg_evict);
             let removed = self.window.remove(0);
             self.window_size -= removed.data.len();
             #[cfg(debug_assertions)]
